@@ -83,6 +83,9 @@ def truth(facts, body, f):
 
 
 def run(facts, chk, tier, only=None):
+    from . import skiter
+    chk.guard('C12.func', 'C12.func:iterator-quality', lambda: skiter.check_reads(facts, chk, 'C12.func', tier))
+    chk.guard('C12.func', 'C12.func:dictionary-reads', lambda: skiter.check_dict_reads(facts, chk, 'C12.func', tier))
     # ---------------------------------------------------------------- qualcmp
     def qualcmp():
         I = Interp(facts, {'IntT': 'u64'})
